@@ -147,26 +147,18 @@ def compare(beh, trace, snaps):
 
 
 def _replay(job):
-    key, nif, fixed, asimpl = job
+    key, nif, design, behs = job
     script = json.loads(key)
     case = case_of(script, nif)
     r = run_case(case, canon=True)
-    res = {'case': case, 'trace': r['trace'], 'match': 'neither', 'thread_exc': r['thread_exc'],
+    res = {'case': case, 'trace': r['trace'], 'match': False, 'thread_exc': r['thread_exc'],
            'stuck': bool(r['deadlock'] or r['livelock'])}
-    diffs = []
-    for name, behs in (('fixed', fixed), ('asimpl', asimpl)):
-        for beh in behs:
-            d = compare(beh, r['trace'], r['snaps'])
-            if d is None:
-                res['match'] = name
-                break
-            diffs.append((name, d))
-        if res['match'] != 'neither':
+    for beh in behs:
+        d = compare(beh, r['trace'], r['snaps'])
+        if d is None:
+            res['match'] = True
             break
-    if res['match'] != 'fixed':
-        res['diff'] = next((d for n, d in diffs if n == 'fixed'), None)
-    if res['match'] == 'neither':
-        res['diff_asimpl'] = next((d for n, d in diffs if n == 'asimpl'), None)
+        res.setdefault('diff', d)
     return res
 
 
@@ -304,8 +296,9 @@ def _devs(extra):
     return devs
 
 
-def _selftest(clean):
-    """a recorded execution with one corrupted event must be rejected"""
+def _selftest_traces():
+    """a recorded execution (deterministic schedule) and copies of it with one corrupted event each"""
+    clean = run_case(SCEN['restart_restart_shutdown'])['trace']
     muts = []
 
     def drop(tr, pred):
@@ -324,9 +317,7 @@ def _selftest(clean):
         t = json.loads(json.dumps(clean))
         m(t)
         bad.append(t)
-    verdicts, _, _ = validate_traces('Trace_ServerRun', [clean] + bad, 'Trace_ServerRun.cfg', timeout=300)
-    if verdicts[0] is not None or any(verdicts[k] is None for k in range(1, len(bad) + 1)):
-        raise MachineryError('Trace_ServerRun self-test failed: %r' % (verdicts,))
+    return [clean] + bad
 
 
 # --------------------------------------------------------------------------- the check
@@ -344,8 +335,35 @@ MUST_FAIL = [      # (cfg, what the as-implemented design has to violate)
 MUST_FAIL_THOROUGH = []
 
 
+JVM = {'JAVA_TOOL_OPTIONS': '-XX:ParallelGCThreads=2'}       # many JVMs side by side
+
+
+def _validate(traces):
+    """Trace_ServerRun on all executions, in parallel batches -> (verdicts, devs, states, transitions)"""
+    n = len(traces)
+    parts = max(1, min(12, n // 120))
+    size = (n + parts - 1) // parts
+    bounds = [(k, min(n, k + size)) for k in range(0, n, size)]
+    outs = run_parallel([lambda lo=lo, hi=hi: validate_traces('Trace_ServerRun', traces[lo:hi], 'Trace_ServerRun.cfg',
+                                                              timeout=1500, collect=('DEVS',), chunk=4000,
+                                                              extra_env=JVM)
+                         for lo, hi in bounds], width=12)
+    verdicts, devs, st, trn = {}, {}, 0, 0
+    for (lo, hi), (v, s_, t_, extra) in zip(bounds, outs):
+        st += s_
+        trn += t_
+        for i, x in v.items():
+            verdicts[lo + i] = x
+        for i, d in _devs(extra).items():
+            devs[lo + i] = d
+    return verdicts, devs, st, trn
+
+
 def run(chk):
+    import multiprocessing as mp
+    import os
     import time as _t
+    from concurrent.futures import ThreadPoolExecutor
     quick = chk.tier == 'quick'
     tier = 'quick' if quick else 'thorough'
     t0 = _t.time()
@@ -354,96 +372,118 @@ def run(chk):
                 'interface at each (re)start x which request arrives after which observable step) is a script run on '
                 'the real Server; events and projected state compared per step.  code -> spec: the scenario catalogue '
                 'under enumerated (1 preemption) / random / line-level random schedules, each execution validated by '
-                'Trace_ServerRun.  A case is distinct by (script) resp. (scenario, choice sequence); non-trivial = a '
-                'request or a failing interface is involved')
-    for m in ('ServerRun', 'Gen_ServerRun', 'ServerRunObs', 'Trace_ServerRun'):
-        sany(m)
-    # ---- 1 TLC: design checks (repaired holds, pinned fails), behaviour emission
-    thunks = [lambda: model_check('ServerRun', f'MC_ServerRun_{tier}.cfg', timeout=1500),
-              lambda: model_check('ServerRun', f'MC_ServerRun_{tier}_live.cfg', timeout=1500)]
-    must = MUST_FAIL + ([] if quick else MUST_FAIL_THOROUGH)
-    for cfg, _ in must:
-        thunks.append(lambda cfg=cfg: run_tlc('ServerRun', cfg, timeout=1500))
-    gens = [f'Gen_ServerRun_{tier}_fixed.cfg', f'Gen_ServerRun_{tier}_asimpl.cfg']
-    for cfg in gens:
-        thunks.append(lambda cfg=cfg: emit_behaviours('Gen_ServerRun', cfg, maximal_only=False, timeout=1500))
-    out = run_parallel(thunks, width=6)
-    for r in out[:2]:
-        chk.add_tlc(r)
-    for (cfg, prop), r in zip(must, out[2:2 + len(must)]):
-        if not ((r.violated and r.violated[1] == prop) or f'Temporal property {prop} was violated' in r.out):
-            raise MachineryError(f'{cfg}: the as-implemented design is expected to violate {prop}: {r.violated or r.error}')
-        chk.add_tlc(r)
-    (rf, fixed), (ra, asimpl) = out[-2:]
-    chk.add_tlc(rf)
-    chk.add_tlc(ra)
-    stage['tlc'] = round(_t.time() - t0, 1)
+                'Trace_ServerRun.  A case is distinct by (design, script) resp. (scenario, choice sequence); '
+                'non-trivial = a request, a signal or a failing interface is involved')
+    procs = int(os.environ.get('VERIF_PROCS', min(os.cpu_count() or 4, 16)))
+    pool = mp.get_context('fork').Pool(procs) if procs > 1 else None        # forked before any thread exists
+    try:
+        run_parallel([lambda m=m: sany(m) for m in ('Gen_ServerRun', 'Trace_ServerRun')], width=2)
+        # ---- 1 TLC (in the background): design checks (repaired holds, pinned fails), behaviour emission
+        thunks = [lambda: model_check('ServerRun', f'MC_ServerRun_{tier}.cfg', timeout=1500, workers=3 if quick else 8,
+                                      env=JVM, heap='2g'),
+                  lambda: model_check('ServerRun', f'MC_ServerRun_{tier}_live.cfg', timeout=1500, workers=2 if quick else 4,
+                                      env=JVM, heap='2g')]
+        must = MUST_FAIL + ([] if quick else MUST_FAIL_THOROUGH)
+        for cfg, _ in must:
+            thunks.append(lambda cfg=cfg: run_tlc('ServerRun', cfg, timeout=1500, workers=1, env=JVM, heap='1g'))
+        gens = [('fixed', f'Gen_ServerRun_{tier}_fixed.cfg'), ('asimpl', f'Gen_ServerRun_{tier}_asimpl.cfg')]
+        for _, cfg in gens:
+            thunks.append(lambda cfg=cfg: emit_behaviours('Gen_ServerRun', cfg, maximal_only=False, timeout=1500,
+                                                          env=JVM, heap='2g'))
+        ex = ThreadPoolExecutor(max_workers=len(thunks))
+        futs = [ex.submit(th) for th in thunks]
 
-    # ---- 2 spec -> code
-    nif = 2
-    table = {}
-    for name, behs in (('fixed', fixed), ('asimpl', asimpl)):
-        for b in behs:
-            table.setdefault(json.dumps(script_of(b), sort_keys=True), {'fixed': [], 'asimpl': []})[name].append(b)
-    keys = sorted(k for k, v in table.items() if v['fixed'])
-    step = 6 if quick else 1
-    keys = keys[chk.seed % step::step]
-    chk.notes['scripts_of_the_repaired_design'] = sum(1 for v in table.values() if v['fixed'])
-    chk.notes['scripts_sampled'] = f'1 of {step}'
-    jobs = [(k, nif, table[k]['fixed'], table[k]['asimpl']) for k in keys]
-    res = pool_map(_replay, jobs)
-    traces, origin = [], []
-    count = {'fixed': 0, 'asimpl': 0, 'neither': 0}
-    for (k, _, _, _), r in zip(jobs, res):
-        count[r['match']] += 1
-        traces.append(r['trace'])
-        origin.append({'world': 'script', 'script': json.loads(k), 'case': r['case'], 'match': r['match'],
-                       'diff': r.get('diff'), 'diff_asimpl': r.get('diff_asimpl'),
-                       'thread_exc': r['thread_exc'], 'stuck': r['stuck']})
-    chk.notes['replay_matches'] = count
-    if jobs:
-        chk.sample({'script': json.loads(jobs[len(jobs) // 2][0])})
-    stage['replay'] = round(_t.time() - t0, 1)
-
-    # ---- 3 code -> spec: scenario catalogue under explored schedules
-    ejobs = []
-    for name in sorted(SCEN):
-        ejobs.append((name, 'dfs', chk.seed, 40 if quick else 1500))
-        ejobs.append((name, 'rnd', chk.seed + 1, 12 if quick else 400))
-        if name in LINE_LEVEL:
-            ejobs.append((name, 'line', chk.seed + 2, 25 if quick else 1500))
-    seen = set()
-    for name, outs in pool_map(_explore, ejobs, chunksize=1):
-        for choices, tr, exc, line in outs:
-            key = (name, line, tuple(choices))
-            if key in seen:
-                continue
-            seen.add(key)
+        # ---- 2 code -> spec (meanwhile): scenario catalogue under explored schedules
+        ejobs = []
+        for name in sorted(SCEN):
+            ejobs.append((name, 'dfs', chk.seed, 20 if quick else 1500))
+            ejobs.append((name, 'rnd', chk.seed + 1, 6 if quick else 400))
+            if name in LINE_LEVEL:
+                ejobs.append((name, 'line', chk.seed + 2, 16 if quick else 1500))
+        corpus_file = VERIF / 'corpus' / 'X06.json'
+        corpus = json.loads(corpus_file.read_text()) if corpus_file.exists() else []
+        if pool is not None:
+            explored = pool.map(_explore, ejobs, 1)
+            cres = pool.map(_corpus, corpus, 1) if corpus else []
+        else:
+            explored = [_explore(j) for j in ejobs]
+            cres = [_corpus(c) for c in corpus]
+        traces, origin, seen = [], [], set()
+        for name, outs in explored:
+            for choices, tr, exc, line in outs:
+                key = (name, line, tuple(choices))
+                if key in seen:
+                    continue
+                seen.add(key)
+                traces.append(tr)
+                origin.append({'world': 'scenario', 'scenario': name, 'choices': choices, 'line': line, 'thread_exc': exc})
+        for item, (choices, tr, exc) in zip(corpus, cres):
             traces.append(tr)
-            origin.append({'world': 'scenario', 'scenario': name, 'choices': choices, 'line': line, 'thread_exc': exc,
-                           'stuck': False})
-    corpus_file = VERIF / 'corpus' / 'X06.json'
-    corpus = json.loads(corpus_file.read_text()) if corpus_file.exists() else []
-    for item, (choices, tr, exc) in zip(corpus, pool_map(_corpus, corpus)):
-        traces.append(tr)
-        origin.append({'world': 'scenario', 'scenario': item['scenario'], 'choices': choices, 'line': bool(item.get('line')),
-                       'thread_exc': exc, 'stuck': False, 'corpus': item.get('shows', '')})
-    stage['explore'] = round(_t.time() - t0, 1)
+            origin.append({'world': 'scenario', 'scenario': item['scenario'], 'choices': choices,
+                           'line': bool(item.get('line')), 'thread_exc': exc, 'corpus': item.get('shows', '')})
+        stage['explore'] = round(_t.time() - t0, 1)
 
-    # ---- 4 TLC judges every execution
-    verdicts, st, trn, extra = validate_traces('Trace_ServerRun', traces, 'Trace_ServerRun.cfg', timeout=1500,
-                                               collect=('DEVS',), chunk=1500)
+        out = [f.result() for f in futs]
+        ex.shutdown()
+        for r in out[:2]:
+            chk.add_tlc(r)
+        for (cfg, prop), r in zip(must, out[2:2 + len(must)]):
+            if not ((r.violated and r.violated[1] == prop) or f'Temporal property {prop} was violated' in r.out):
+                raise MachineryError(f'{cfg}: the as-implemented design is expected to violate {prop}: '
+                                     f'{r.violated or r.error}')
+            chk.add_tlc(r)
+        behs = {}
+        for (design, _), (r, b) in zip(gens, out[-2:]):
+            chk.add_tlc(r)
+            behs[design] = b
+        stage['tlc'] = round(_t.time() - t0, 1)
+
+        # ---- 3 spec -> code: the scripts of both designs on the real server
+        nif = 2
+        jobs = []
+        for design in ('fixed', 'asimpl'):
+            uniq = {}
+            for b in behs[design]:
+                uniq.setdefault(json.dumps(script_of(b), sort_keys=True), []).append(b)
+            keys = sorted(uniq)
+            step = (6 if design == 'fixed' else 24) if quick else 1
+            chk.notes[f'scripts_{design}'] = f'{len(keys)} (1 of {step} replayed)'
+            for k in keys[chk.seed % step::step]:
+                jobs.append((k, nif, design, uniq[k]))
+        res = pool.map(_replay, jobs, max(1, len(jobs) // (procs * 4))) if pool is not None else [_replay(j) for j in jobs]
+        count = {'fixed': [0, 0], 'asimpl': [0, 0]}
+        for (k, _, design, _), r in zip(jobs, res):
+            count[design][0 if r['match'] else 1] += 1
+            traces.append(r['trace'])
+            origin.append({'world': 'script', 'design': design, 'script': json.loads(k), 'case': r['case'],
+                           'match': r['match'], 'diff': r.get('diff'), 'thread_exc': r['thread_exc'], 'stuck': r['stuck']})
+        chk.notes['replay_match_mismatch'] = count
+        if jobs:
+            chk.sample({'script': json.loads(jobs[len(jobs) // 2][0])})
+        stage['replay'] = round(_t.time() - t0, 1)
+    finally:
+        if pool is not None:
+            pool.close()
+            pool.join()
+
+    # ---- 4 TLC judges every execution (+ binding self-test: corrupted recordings must be rejected)
+    selft = _selftest_traces()
+    verdicts, devs, st, trn = _validate(traces + selft)
     chk.states += st
     chk.transitions += trn
-    devs = _devs(extra)
+    n = len(traces)
+    if any(verdicts[n + k] is None and not devs.get(n + k) for k in range(1, len(selft))):
+        raise MachineryError('Trace_ServerRun self-test failed: a corrupted recording is accepted: %r'
+                             % ([verdicts[n + k] for k in range(len(selft))],))
+    chk.notes['binding_selftest'] = len(selft) - 1
     dcount = {}
-    clean = None
-    for i, v in verdicts.items():
+    for i in range(len(traces)):
+        v = verdicts[i]
         o = origin[i]
         chk.impl_traces += 1
         nontrivial = any(e['ev'] in ('req_b', 'bindfail', 'sig_b', 'crash') for e in traces[i])
         if o['world'] == 'script':
-            chk.case(('script', json.dumps(o['script'], sort_keys=True)), nontrivial)
+            chk.case(('script', o['design'], json.dumps(o['script'], sort_keys=True)), nontrivial)
         else:
             chk.case(('scenario', o['scenario'], o['line'], tuple(o['choices'])), nontrivial)
         bad_exc = {k: x for k, x in o['thread_exc'].items() if x not in ALLOWED_THREAD_EXC}
@@ -459,25 +499,23 @@ def run(chk):
         for dev in sorted(d):
             dcount[dev] = dcount.get(dev, 0) + 1
             chk.violation({'module': 'ServerRun', 'deviation': dev}, detail)
-        if o['world'] == 'script':
-            if o['match'] == 'neither':
-                chk.violation({'module': 'ServerRun', 'replay': 'neither design', 'act': (o['diff'] or {}).get('act')}, detail)
-            elif o['match'] == 'asimpl' and not d:
-                chk.violation({'module': 'ServerRun', 'replay': 'as-implemented design without a named deviation',
-                               'act': (o['diff'] or {}).get('act')}, detail)
-        if clean is None and not d and o['world'] == 'scenario' and o['scenario'] == 'serve_two_restarts':
-            clean = traces[i]
+    # spec -> code verdict: the code is bound to the code-shaped model - every script of one of the two designs has to
+    # be reproduced event by event and state by state (pinned tree: the as-implemented design; repaired tree: the
+    # repaired design); what an as-implemented execution means is decided by the deviations above
+    mism = {dsg: [origin[i] for i in range(len(traces)) if origin[i]['world'] == 'script'
+                  and origin[i]['design'] == dsg and not origin[i]['match']] for dsg in ('fixed', 'asimpl')}
+    if mism['fixed'] and mism['asimpl']:
+        ref = 'asimpl' if len(mism['asimpl']) <= len(mism['fixed']) else 'fixed'
+        for o in mism[ref][:40]:
+            chk.violation({'module': 'ServerRun', 'replay': 'differs from both designs',
+                           'act': (o['diff'] or {}).get('act'), 'what': (o['diff'] or {}).get('state', 'event')},
+                          dict(o, reference_design=ref))
+    chk.notes['code_follows_design'] = 'asimpl' if not mism['asimpl'] else 'fixed' if not mism['fixed'] else 'neither'
     chk.notes['deviations_needed'] = dcount
     chk.notes['explored_schedules'] = len(seen)
     chk.notes['corpus_schedules'] = len(corpus)
-    # a corpus schedule documents a defect: on the pinned tree it has to show it (else the reproduction is stale)
     stage['validate'] = round(_t.time() - t0, 1)
 
-    # ---- 5 binding self-test
-    if clean:
-        _selftest(clean)
-    chk.notes['binding_selftest'] = bool(clean)
-    stage['selftest'] = round(_t.time() - t0, 1)
     chk.notes['wall_until_end_of_stage'] = stage
     chk.exhaustive = False
 
